@@ -21,27 +21,27 @@ NA = {
 CHECKS = {
  'C05': dict(
    technique='deterministic simulation: per-transition refinement of the four simulator cores against an executable reference Z80 (RefZ80) during simulated machine runs',
-   text='Seeded exploration: every dispatch slot of every engine is executed from generated states (boundary-biased) and inside generated programs with scheduler-chosen interrupts; each executed transition must match RefZ80 on registers, documented flags, memory writes, port events and T-states. Sampling of operand spaces, not proof; no fault dimension exists for a single instruction (see DESIGN.md 5/C05).',
+   text='Seeded exploration: every dispatch slot of every engine is executed from generated states (boundary-biased) and inside generated programs with scheduler-chosen interrupts; each executed transition must match RefZ80 on registers, documented flags, memory writes, port events and T-states. The first scenarios of every batch execute every entry of every 8-bit flag/result table on every engine (17 M executions per quick run); 16-bit and memory-addressed forms are sampled with boundary bias. Sampling of operand spaces, not proof; no fault dimension exists for a single instruction (see DESIGN.md 5/C05).',
    note='Trusts RefZ80 (written from the Zilog manual, independent of SkoolKit tables). Bits 3/5 of F, MEMPTR, documented-undefined flags, the IM result of ED4E/ED6E and the vector-read/push order on interrupt overlap are not judged.',
    ref='DESIGN.md section 5, C05'),
  'C06': dict(
    technique='deterministic simulation: lock-step replicas (Simulator, fast-path Simulator, CSimulator, CMIOSimulator, CCMIOSimulator) on one seeded world, "replicas never diverge" after every event',
-   text='Seeded exploration of programs, start states, port values, tracer configurations and interrupt landing points; all implementations are stepped in lock step on the same world and must stay bit-identical (registers incl. R/T/IFF/IM/HALT, MEMPTR within the contended pair, RAM, port-access sequence).',
+   text='Seeded exploration of programs, start states, port values, tracer configurations and interrupt landing points; all implementations are stepped in lock step on the same world and must stay bit-identical (registers incl. R/T/IFF/IM/HALT, MEMPTR within the contended pair, RAM, port-access sequence). Also: batch run(start, stop, interrupts) on all replicas, trace.py with and without --python, and an entry-by-entry comparison of every 8-bit table between the Python and C engines.',
    note='Replicas are reset in place between scenarios; C modules are rebuilt from c/csimulator.c for every run. One known finding (128K without a tracer) is attributed counterfactually.',
    ref='DESIGN.md section 5, C06'),
  'C08': dict(
    technique='deterministic simulation: safety invariants monitored after every event of lock-step runs + pager histories against a reference paging model',
-   text='Seeded exploration: ROM digests, register/cell ranges, clock monotonicity and the 128K mapping (reference pager driven by the replica\'s own OUT log) are checked after every event of runs that aim stores and paging writes at the boundaries.',
+   text='Seeded exploration: ROM digests, register/cell ranges, clock monotonicity and the 128K mapping (reference pager driven by the replica\'s own OUT log) are checked after every event of runs that aim stores and paging writes at the boundaries. Pager histories (random, up to 30 operations with snapshot restarts; and every length-2 history of values, exhaustively in the thorough tier) run on each of the 7 copies of the paging logic x 4 engines against a reference pager.',
    note='C-side bank pointers are observed through executed loads and the Python-visible Memory object, not private fields.',
    ref='DESIGN.md section 5, C08'),
  'C17': dict(
    technique='deterministic simulation of operation histories: model-based stateful testing of two replicas (real AsmWriter and HtmlWriter) against a reference evaluator (RefMacro), compared after every step, with history shrinking',
-   text='Seeded exploration of macro histories: state-changing steps (#LET incl. dictionaries, #POKES, #PUSHS/#POPS, #DEF) followed by reading terms generated from the macro grammar (nesting <= 4, every delimiter form, arithmetic over all documented operators and bases, replacement fields); both writers must produce the documented text and the same text as each other (HTML after unescaping), and both memories must equal the model memory.',
+   text='Seeded exploration of macro histories: state-changing steps (#LET incl. dictionaries, #POKES incl. planted strings, #PUSHS/#POPS, #DEF) followed by reading terms (#EVAL #N #IF #MAP #FOR #FOREACH #WHILE #FORMAT #PEEK #CHR #STR #SPACE #PC and defined macros) generated from the macro grammar (nesting <= 4, every delimiter form, arithmetic over all documented operators and bases, replacement fields); both writers must produce the documented text and the same text as each other (HTML after unescaping), and both memories must equal the model memory.',
    note='No clock or fault exists for this property; histories and two replicas are the explored dimensions. RefMacro generates only terms whose meaning the documentation fixes. Hypothesis is not used: histories are plain term-tree lists in the common replay format (see DESIGN.md).',
    ref='DESIGN.md section 5, C17'),
  'C19': dict(
    technique='deterministic simulation: plain/contended twin engines stepped from identical states at seeded frame positions; delay oracle = RefULA folded over RefZ80 bus cycles',
-   text='Seeded exploration over dispatch slots x frame positions x address placements: each contended step must equal its plain twin (T/MEMPTR aside), never be faster, and be slower by exactly the reference ULA delay for the reference bus-cycle list.',
+   text='Seeded exploration over dispatch slots x frame positions x address placements: each contended step must equal its plain twin (T/MEMPTR aside), never be faster, and be slower by exactly the reference ULA delay for the reference bus-cycle list. Frame sweeps execute 214 instruction templates (every bus-cycle shape, boundary straddles) at every T-state of the 48K and 128K frames (all in the thorough tier, a seeded 4% slice in the quick tier).',
    note='Trusts RefZ80 cycle lists and RefULA (written from the published contention description). For the OTIR/OTDR repeat cycles both readings of "bc" (before/after the decrement of B) are accepted.',
    ref='DESIGN.md section 5, C19'),
  'C12': dict(
